@@ -16,7 +16,7 @@ TABLE = {
           "Not modelled: IEEE rounding (conditioning-aware tolerance), overflow beyond 1e150.", "3/C12"),
   "C14": ("Lean 4 theorems about phase selectors that are re-translated from the Python source on every run (mini-Python -> Lean translator), plus an exact list model of the six filters; differential runs on threshold-dense integer grids",
           "Proved for all integer budgets/counts (incl. budget < failures, zero open suggestions): no selector divides by zero, the generated multi-metric selector equals (rfl) the documented stage table, stages/search/Parzen phases never move backwards as observations arrive, the fraction handed on lies in [0,1], weights in [0.1,0.9] summing to 1, epsilon in [0.1,0.9], 0<gamma<1; filters: equal lengths, right columns, violators dropped (GP) or overwritten by the lie (Parzen). Selectors are regenerated from source so the theorems are re-checked against the current code.",
-          "Not proved: agreement of float division with exact rationals at thresholds (argued for denominators < 1e14); Halton draw is an oracle; View wiring is exercised by C01/C06.", "3/C14"),
+          "Float evaluation: a second, rounding-annotated translation of the three selectors (one abstract rounding per Python float operation and literal) is proved to pick the same phase as the exact translation for |counts| summing below 1e14, for every rounding function with relative error 2^-53 (plus two stated facts about doubles for the Parzen selector, re-checked on the running interpreter each run; counter-models show they cannot be dropped). Trusted: binary64 satisfies that error bound, int->float exact below 2^53, int/int correctly rounded. Halton draw is an oracle.", "3/C14"),
   "C13": ("Lean 4 theorems over an exact model (any linear order / Rat) of the frontier mask loop as written, the epsilon value and the minimum-success repair; exact-rational correspondence",
           "Proved for all matrices (any n, m, ties, duplicates): the incremental mask loop equals the non-dominated set (partition, order, ties kept); the sorted frontier is the minimisation frontier; without thresholds the value is the convex combination at the two column arg-mins; with any thresholds (incl. NaN and every fall-back) the value stays in the column range; repair count = max(before, min(5,n)), un-fails only the lowest failures. Tied by the generated constant 5 and exact-rational differential runs with brute-force direct oracles.",
           "Not modelled: IEEE rounding of (1-eps)a+eps*b (16 ulp), NaN/inf metric values; tie-breaking among equal values accepted liberally; empty input is a precondition.", "3/C13"),
